@@ -196,9 +196,22 @@ package value
 // under the preconditions its dispatcher establishes (operand types of the entry; declared number of stack arguments).
 
 //@ table Equal
+//@   property C14
 //@   safety C05
+//@   law bool-result
+//@   law symmetric
+//@   law reflexive
+//@   law numeric-eq
+//@   law total-on Int,Float
 //@ table Less
+//@   property C14
 //@   safety C05
+//@   law bool-result
+//@   law irreflexive
+//@   law asymmetric
+//@   law transitive
+//@   law numeric-lt
+//@   law total-on Int,Float
 //@ table Add
 //@   safety C05
 //@ table Sub
@@ -244,9 +257,47 @@ package value
 //@ representation Closure: self.Func != nil && (self.Args >= 0 ==> fs(self.Func) == self.Args) && (self.Args < 0 ==> fs(self.Func) < 0 && fsmin(self.Func) <= 1) && cl(self.Func) == 0
 //@ representation List: self.iterable != nil
 
+// ---------------------------------------------------------------- comparison operators (C14)
+//
+// calcOK / calcV: an operation matrix as a partial function of its operands (no error / the result). The derived
+// operators are specified over the matrices `equal` and `less` they capture.
+
+//@ ghost func calcOK(m OperationMatrix, a Value, b Value) bool
+//@ ghost func calcV(m OperationMatrix, a Value, b Value) Value
+//@ ghost func boolTable(m OperationMatrix) bool
+//@ predicate asBool(v Value) = bool(unbox(v, Bool))
+
 //@ interface-contract OperationMatrix.Calc
 //@   option no-impl-check
 //@   requires st.storage != nil && 0 <= st.offs && 0 <= st.size && st.offs+st.size <= len(st.storage.data)
+//@   ensures (result1 == nil) == calcOK(self, a, b)
+//@   ensures result1 == nil ==> result0 == calcV(self, a, b) && result0 != nil
+//@   ensures result1 == nil && boolTable(self) ==> typeis(result0, Bool)
 //@   ensures len(st.storage.data) >= old(len(st.storage.data))
 //@   ensures forall i in 0..st.offs+st.size :: st.storage.data[i] == old(st.storage.data[i])
 //@   assigns any List.items, any List.itemsPresent, any List.iterable, any funcGen.stackStorage[Value].data, any []Value
+
+//@ entry New op:!=
+//@   property C14
+//@   requires equal != nil && boolTable(equal) && validStack(st)
+//@   ensures[error-iff] (result1 == nil) == calcOK(equal, a, b)
+//@   ensures[negation] result1 == nil ==> result0 == box(Bool(!asBool(calcV(equal, a, b))))
+
+//@ entry New op:>
+//@   property C14
+//@   requires less != nil && validStack(st)
+//@   ensures[swapped] (result1 == nil) == calcOK(less, b, a) && (result1 == nil ==> result0 == calcV(less, b, a))
+
+//@ entry New op:<=
+//@   property C14
+//@   requires less != nil && equal != nil && boolTable(less) && boolTable(equal) && validStack(st)
+//@   ensures[error-iff] (result1 == nil) == (calcOK(less, a, b) && (asBool(calcV(less, a, b)) || calcOK(equal, a, b)))
+//@   ensures[less-or-equal] result1 == nil ==> asBool(result0) == (asBool(calcV(less, a, b)) || asBool(calcV(equal, a, b)))
+//@   ensures[bool] result1 == nil ==> typeis(result0, Bool)
+
+//@ entry New op:>=
+//@   property C14
+//@   requires less != nil && equal != nil && boolTable(less) && boolTable(equal) && validStack(st)
+//@   ensures[error-iff] (result1 == nil) == (calcOK(less, b, a) && (asBool(calcV(less, b, a)) || calcOK(equal, a, b)))
+//@   ensures[greater-or-equal] result1 == nil ==> asBool(result0) == (asBool(calcV(less, b, a)) || asBool(calcV(equal, a, b)))
+//@   ensures[bool] result1 == nil ==> typeis(result0, Bool)
